@@ -61,6 +61,7 @@ func checkC12(r *core.Run) {
 	c12OutputsOfSameTx(r, p, "R-C12-owner")
 	c12MemInputCounters(r, p, "R-C12-sort")
 	c12PkgCache(r, p)
+	c12OverlapScanComplete(r, p, "R-C12-sort")
 	// a transaction is unlinked from the pool (its inputs released, its map entry removed) before the fee
 	// packages are updated: the package update rebuilds membership by walking the spent-outputs map, and would
 	// put the transaction that is being deleted back into its package
@@ -1225,4 +1226,49 @@ func c12RunningMax(fn *ssa.Function, field string) string {
 		return "the kept parent is never replaced"
 	}
 	return ""
+}
+
+// c12OverlapScanComplete: the listing with fee packages skips a package when any of its members is already
+// listed.  The test (anyIn) is a search over the package's members; it is complete only if the loop is left
+// either because the members are exhausted or because a member was found in the list.  An early exit under
+// any other condition leaves members unexamined, and a transaction can be listed twice.
+func c12OverlapScanComplete(r *core.Run, p *core.Program, rule string) {
+	const key = "package-overlap-scan-complete"
+	fn := p.Func("client/txpool.(*OneTxsPackage).anyIn")
+	if fn == nil {
+		r.Fail(rule, key, "-", "the package overlap test was not found")
+		return
+	}
+	var heads []*ssa.BasicBlock
+	for _, b := range fn.Blocks {
+		if an.LoopBody(b) != nil {
+			heads = append(heads, b)
+		}
+	}
+	if len(heads) != 1 {
+		r.Fail(rule, key, p.Pos(fn.Pos()), fmt.Sprintf("%d loops in the overlap test (one expected)", len(heads)))
+		return
+	}
+	h := heads[0]
+	body := an.LoopBody(h)
+	bad := ""
+	for b := range body {
+		for _, s := range b.Succs {
+			if body[s] || b == h {
+				continue
+			}
+			found := false
+			for _, dc := range an.EdgeConds(b, s) {
+				if ex, ok := dc.If.Cond.(*ssa.Extract); ok && ex.Index == 1 && dc.True {
+					if lk, ok := ex.Tuple.(*ssa.Lookup); ok && lk.CommaOk {
+						found = true
+					}
+				}
+			}
+			if !found {
+				bad = "the scan over the package's members is left at " + p.Pos(blockPos(s)) + " although no member was found in the list and members remain"
+			}
+		}
+	}
+	r.Check(bad == "", rule, key, p.Pos(fn.Pos()), "the scan ends when the members are exhausted or one is found", bad)
 }
